@@ -261,32 +261,43 @@ func (l *Lowerer) wf(v *Term, t types.Type) {
 	if t == nil {
 		return
 	}
+	if isRefLike(types.Unalias(t)) && !l.p.isOpaqueStruct(t) {
+		l.f.declare("$alloc", "Int")
+	}
+	if w := l.p.wfTerm(v, t, l.oldRename == nil); w != nil {
+		l.assume(w)
+	}
+}
+
+// wfTerm: the type facts of a value of Go type t (nil when there are none). withAlloc adds "allocated".
+func (p *Prog) wfTerm(v *Term, t types.Type, withAlloc bool) *Term {
+	if t == nil {
+		return nil
+	}
 	t = types.Unalias(t)
 	if lo, hi, ok := intRange(t); ok {
-		l.assume(And(App("<=", "Bool", Lit(lo, "Int"), v), App("<=", "Bool", v, Lit(hi, "Int"))))
-		return
+		return And(App("<=", "Bool", Lit(lo, "Int"), v), App("<=", "Bool", v, Lit(hi, "Int")))
 	}
-	if l.p.isOpaqueStruct(t) {
-		return
+	if p.isOpaqueStruct(t) {
+		return nil
 	}
 	switch u := t.Underlying().(type) {
 	case *types.Basic:
 		if u.Info()&types.IsString != 0 {
-			l.assume(And(Le(IntLit(0), App("strlen", "Int", v)), Le(App("strlen", "Int", v), IntPow2(56))))
+			return And(Le(IntLit(0), App("strlen", "Int", v)), Le(App("strlen", "Int", v), IntPow2(56)))
 		}
 	case *types.Slice:
-		r := l.p.reg
+		r := p.reg
 		// A-arch: no slice is longer than 2^56 elements (the amd64 address space is 2^47 bytes)
-		l.assume(And(Le(IntLit(0), r.sLen(v)), Le(r.sLen(v), r.sCap(v)), Le(IntLit(0), r.sOff(v)),
-			Le(r.sCap(v), IntPow2(56)), Implies(r.sNil(v), Eq(r.sLen(v), IntLit(0)))))
+		return And(Le(IntLit(0), r.sLen(v)), Le(r.sLen(v), r.sCap(v)), Le(IntLit(0), r.sOff(v)),
+			Le(r.sCap(v), IntPow2(56)), Implies(r.sNil(v), Eq(r.sLen(v), IntLit(0))))
 	case *types.Pointer, *types.Map, *types.Chan, *types.Signature, *types.Interface:
-		l.f.declare("$alloc", "Int")
-		if l.oldRename == nil {
-			l.assume(And(Le(IntLit(0), v), Lt(v, V("$alloc", "Int"))))
-		} else {
-			l.assume(Le(IntLit(0), v))
+		if withAlloc {
+			return And(Le(IntLit(0), v), Lt(v, V("$alloc", "Int")))
 		}
+		return Le(IntLit(0), v)
 	}
+	return nil
 }
 
 // structOf returns the struct type behind t (through one pointer), or nil.
@@ -565,6 +576,9 @@ func (l *Lowerer) localVarNamed(obj types.Object, sort string) string {
 		return name
 	}
 	l.f.declare(name, sort)
+	if l.f.VarTypes != nil && sort == l.p.sortOf(obj.Type()) {
+		l.f.VarTypes[name] = obj.Type()
+	}
 	return name
 }
 
